@@ -384,6 +384,12 @@ func (rl *respDeserializer) peekBulkLine(length int) (line respBulkString, valid
 		panic("already determined the next line")
 	}
 
+	if length < 0 {
+		// (a chunk of a streamed string may declare any length: a negative one is malformed)
+		valid = false
+		return
+	}
+
 	if length > len(rl.content)-rl.pos-2 {
 		// not all there yet (compared this way round because the declared length may be huge)
 		valid = false
